@@ -63,6 +63,10 @@ func (vc *VC) atReturnTop(f *frame, vals []Term) {
 		if !f.modeOK(e.Mode) {
 			continue
 		}
+		if e.Abstract {
+			vc.assumptions["abstraction: "+FuncName(f.fn)+" is a deterministic function of its arguments ("+e.Text+")"] = true
+			continue
+		}
 		cond := f.evalClause(e, env)
 		f.obligeNoAssume("post", fmt.Sprintf("[%d] %s", k, e.Text), e.Props, f.curInstr().Pos(), cond)
 	}
@@ -99,6 +103,28 @@ func (vc *VC) Run() {
 
 func (vc *VC) generate() {
 	fn, con := vc.fn, vc.con
+	if fn == nil {
+		// a lemma: one closed formula, no code
+		env := &Env{vc: vc, bound: map[string]TV{}, state: State{}, old: State{}}
+		for _, e := range con.Ensures {
+			func() {
+				defer func() {
+					if r := recover(); r != nil {
+						if se, ok := r.(specError); ok {
+							vc.unsupp("%s: %s", e.Src, string(se))
+							return
+						}
+						panic(r)
+					}
+				}()
+				t := vc.evalBool(e.Expr, env)
+				if vc.pass == 2 {
+					vc.addObligation("lemma", e.Text, e.Props, 0, TTrue, t)
+				}
+			}()
+		}
+		return
+	}
 	f := vc.newFrame(fn, con, 0)
 	f.top = true
 	f.safety = con == nil || !con.NoSafety
@@ -147,10 +173,15 @@ func (vc *VC) generate() {
 		if con.HasAssigns {
 			vc.topLocs = vc.evalLocs(con.Assigns, env)
 		}
-		for _, ax := range vc.specs.Axioms {
-			_ = ax
+	}
+	vc.assumeGlobalInvs(f, env)
+	if fn.Synthetic == "package initializer" {
+		// the initialiser runs once: its guard is still false
+		if g, ok := fn.Pkg.Members["init$guard"].(*ssa.Global); ok {
+			vc.assume(Not(vc.load(entry, vc.globalRef(g), types.Typ[types.Bool])))
 		}
 	}
+	vc.entryLines = len(vc.lines)
 	f.walk(TTrue, entry)
 	if vc.pass == 2 {
 		// vacuity: a function whose every path ends in a noreturn call has no return cover;
@@ -230,3 +261,44 @@ func indent(s string, n int) string {
 	pad := strings.Repeat(" ", n)
 	return pad + strings.ReplaceAll(s, "\n", "\n"+pad)
 }
+
+// assumeGlobalInvs: invariants of frozen globals of the function's package and
+// of the packages it imports hold in every state (they are proved on the
+// package initialisers).
+func (vc *VC) assumeGlobalInvs(f *frame, env *Env) {
+	if isInitFunc(vc.fn) {
+		return
+	}
+	pkg := f.pkg()
+	if pkg == nil {
+		return
+	}
+	rel := map[string]*types.Package{shortPkg(pkg.Path()): pkg}
+	for _, imp := range pkg.Imports() {
+		rel[shortPkg(imp.Path())] = imp
+	}
+	for _, gi := range vc.specs.GlobalInvs {
+		p := rel[gi.Pkg]
+		if p == nil {
+			continue
+		}
+		sp := vc.prog.SSA.Package(p)
+		if sp == nil {
+			continue
+		}
+		g := sp.Var(gi.Name)
+		if g == nil {
+			vc.unsupp("%s: no package-level variable %s.%s", gi.Clause.Src, gi.Pkg, gi.Name)
+			continue
+		}
+		if !vc.prog.Frozen[g] {
+			vc.unsupp("%s: %s.%s is written outside its package initialiser (or its address escapes); its invariant cannot be assumed", gi.Clause.Src, gi.Pkg, gi.Name)
+			continue
+		}
+		e := &Env{vc: vc, bound: map[string]TV{}, state: State{}, old: State{}, pkg: p}
+		vc.assume(f.evalClause(gi.Clause, e))
+		vc.assumptionsNote("global invariant " + gi.Pkg + "." + gi.Name + ": " + gi.Clause.Text + " (proved on the package initialiser)")
+	}
+}
+
+func (vc *VC) assumptionsNote(s string) { vc.notes[s] = true }
